@@ -3569,11 +3569,10 @@ impl Transition {
                     if name.len() == e.len() {
                         // Full match
                         return true;
-                    } else if let Some(c) = name.chars().nth(e.len()) {
-                        // partial match, token needs to be terminated with "."
-                        if c == '.' {
-                            return true;
-                        }
+                    } else if name[e.len()..].starts_with('.') {
+                        // partial match, token needs to be terminated with ".".
+                        // (e.len() counts bytes, so the rest of the name is sliced by bytes, too)
+                        return true;
                     }
                 }
             }
